@@ -31,11 +31,13 @@ TRUSTED_BASE = [
 
 
 def owns(ob_name, prop, fn_props):
-    """an obligation whose clause is tagged Cxx- belongs to that property only; untagged ones to all props of the function"""
+    """every obligation of a function belongs to every property that depends on that function (the Cxx- tags in clause names
+    only say which statement a clause was transcribed from); a function pulled in for another property's determinism scan
+    contributes only its clauses tagged with that property"""
+    if prop in fn_props:
+        return True
     tags = re.findall(r'(?<![A-Za-z0-9])(C\d\d)-', ob_name)
-    if tags:
-        return prop in tags
-    return prop in fn_props
+    return prop in tags
 
 
 def gen_function(args):
@@ -119,7 +121,7 @@ def run_property(prop, tier='quick', seed=0, out=sys.stdout):
             continue
         if rep['status'] != 'ok':
             undecided_fn.append(f"{rep['qual']}: {rep['status']}: {rep['reason']}")
-        mine = [o for o in rep['obligations'] if owns(o['name'], prop, c.props if prop in c.props else [])]
+        mine = [o for o in rep['obligations'] if owns(o['name'], prop, c.props)]
         for o in mine:
             o['function'] = rep['qual']
         allobs.extend(mine)
